@@ -1,2 +1,34 @@
--- line-protocol model driver for C10 (stub)
-def main : IO Unit := IO.println "stub C10"
+/- Line-protocol model driver for C10.
+    rows                                          -> "bad <opnum>..." | "ok"      (rows of the generated tables that fail rowOk)
+    consistent                                    -> "true" | "false"
+    verify <sc> <arity> <vararg> <nc> <nd> <ne> <hex of u32 LE words> -> error code of the janet_verify model (0 = accepted)
+-/
+import Driver.Util
+import JanetModel.Bytecode.VerifyDefs
+import JanetModel.Gen.VmAccess
+open Driver JanetModel.Bytecode JanetModel.Gen.VmAccess
+
+def wordsOfBytes : List Nat → List Nat
+  | a :: b :: c :: d :: rest => (a + 256 * b + 65536 * c + 16777216 * d) :: wordsOfBytes rest
+  | _ => []
+
+def step (_ : Unit) (toks : List String) : Unit × String :=
+  match toks with
+  | ["rows"] =>
+    let bad := tables.badRows
+    ((), if bad.isEmpty then "ok" else "bad " ++ " ".intercalate (bad.map toString))
+  | ["consistent"] => ((), toString tables.consistent)
+  | ["verify", sc, ar, va, nc, nd, ne, h] =>
+    match sc.toNat?, ar.toNat?, va.toNat?, nc.toNat?, nd.toNat?, ne.toNat?, bytesOfHex h with
+    | some sc, some ar, some va, some nc, some nd, some ne, some bs =>
+      let d : FuncDef := { slotcount := sc, arity := ar, vararg := va != 0, nconsts := nc, ndefs := nd, nenvs := ne, bytecode := wordsOfBytes bs }
+      ((), toString (verify tables d))
+    | _, _, _, _, _, _, _ => ((), "bad-op")
+  | ["verify", sc, ar, va, nc, nd, ne] =>
+    match sc.toNat?, ar.toNat?, va.toNat?, nc.toNat?, nd.toNat?, ne.toNat? with
+    | some sc, some ar, some va, some nc, some nd, some ne =>
+      ((), toString (verify tables { slotcount := sc, arity := ar, vararg := va != 0, nconsts := nc, ndefs := nd, nenvs := ne, bytecode := [] }))
+    | _, _, _, _, _, _ => ((), "bad-op")
+  | _ => ((), "bad-op")
+
+def main : IO Unit := runLoop () step
